@@ -410,6 +410,17 @@ impl ClusterState {
         ring: Ring,
         tablets: TabletsInfo,
     ) -> (ReplicaLocator, HashMap<String, Keyspace>) {
+        // Under simulation the only real thread of the driver (the blocking pool)
+        // would be a source of nondeterminism: compute inline instead.
+        #[cfg(scylla_verif)]
+        if crate::verif::inline_blocking() {
+            let keyspace_strategies = keyspaces
+                .values()
+                .filter(|ks| !ks.tablet_based)
+                .map(|ks| &ks.strategy);
+            let locator = ReplicaLocator::new(ring.into_iter(), keyspace_strategies, tablets);
+            return (locator, keyspaces);
+        }
         tokio::task::spawn_blocking(move || {
             let keyspace_strategies = keyspaces
                 .values()
